@@ -219,10 +219,12 @@ struct PropC15
     }
     {
       uint64_t s = spaceSize(3, 3);
-      uint64_t take = q ? 4000000ULL : 400000000ULL;
-      phases.push_back({"sample-3D-depth3", 3, 3, std::min(take, s), take >= s, s});
+      // quick: a seeded sample of the 1.7e9 plans; thorough: the whole space in index order (as far as the
+      // wall-clock cap allows: runs that did not fit are reported as budget_truncated_runs)
+      if (q) {phases.push_back({"sample-3D-depth3", 3, 3, 4000000ULL, false, s});}
+      phases.push_back({"random-histories", 0, 0, q ? 300000ULL : 20000000ULL, false, 0});
+      if (!q) {phases.push_back({"sweep-3D-depth3", 3, 3, s, true, s});}
     }
-    phases.push_back({"random-histories", 0, 0, q ? 300000ULL : 20000000ULL, false, 0});
   }
 
   uint64_t totalRuns() const
